@@ -20,11 +20,15 @@ REQUIRED_THEOREMS = [
     'C14_data_follows_outputs', 'C14_map_order_irrelevant', 'C14_observable_types',
     'C14_posterior', 'C14_posterior_exists', 'C14_posterior_of_frame', 'C14_prefix_posterior_partial',
     'C14_unsorted_counterexample', 'C14_single_individual_counterexample', 'C14_selector_counterexample',
-    'C14_selector_zero', 'C14_model_state_after', 'C14_history_independent', 'C14_stale_regimen_counterexample']
+    'C14_selector_zero', 'C14_model_state_after', 'C14_history_independent', 'C14_stale_regimen_counterexample',
+    'C14_default_map_by_name', 'C14_default_map_unrelated_observables', 'C14_default_map_single',
+    'C14_default_map_missing', 'C14_set_data_default_map', 'C14_default_map_frames']
 RULE = ('long-format frames with 1-5 (sometimes 11) individuals (int / float / str / mixed-object ID columns, IDs '
         'that coincide as strings, IDs whose string order differs from their order of appearance, the ID 0 / 0.0 / "0" '
         'at any position), 1-3 outputs '
-        'mapped to observables (explicit / identity / automatic map; explicit maps written in any order, with extra '
+        'mapped to observables (explicit / identity / automatic map; no map passed at all: outputs matched to the '
+        'observables of the same name among unrelated observables, covariate rows and labelled dose rows in any '
+        'order of appearance, or one output paired with the only observable; explicit maps written in any order, with extra '
         'keys, observable names and map values as numbers or strings), unbalanced and tied times, rows with missing '
         'value / time, unrelated observables, foreign columns, renamed keys, arbitrary index labels (permuted, '
         'strided, duplicated), numbers given as text, categorical / nullable column dtypes, dose rows with / '
@@ -199,8 +203,13 @@ def gen_case(rng, layout=None, force=None):
     pop = gen_pop(rng, n_mech + n_err - (1 if fix_b else 0)) if has_pop else None
     cov_names = [c for b in (pop or []) if b[2] for c in b[2]]
     junk = rng.random() < 0.6
+    # no output_observable_dict passed at all: outputs are matched to the observables of the same name, whatever
+    # else the frame holds (unrelated observables, covariate rows, labelled dose rows — anywhere, also first);
+    # only a frame with ONE observable and a model with ONE output are paired regardless of the name ('auto')
+    default_map = bool(rng.random() < 0.5)
     if map_mode == 'auto' and (n_out > 1 or junk or cov_names):
-        map_mode = 'explicit'
+        map_mode = 'identity' if default_map else 'explicit'
+        default_map = True
     # observable names: strings, or numbers (stringified by the controller: '7', never compared as numbers)
     numeric_obs = map_mode != 'identity' and rng.random() < 0.25
     if map_mode == 'identity':
@@ -326,6 +335,7 @@ def gen_case(rng, layout=None, force=None):
         'dosing': dosing, 'user_regimen': user_regimen, 'fixed_bottom': fixed_bottom, 'fixed_top': fixed_top,
         'order': order, 'eval_seed': int(rng.integers(1 << 30)), 'model': 'toy',
         'map_seed': int(rng.integers(1 << 30)), 'numeric_obs': bool(numeric_obs),
+        'pass_identity_none': bool(default_map and map_mode == 'identity'),
         'frame_mode': [None, None, None, None, 'numeric_as_string', 'column_dtypes'][int(rng.integers(6))],
         'pre_set': bool(rng.random() < 0.15),
         'em_alias': bool(rng.random() < 0.3), 'second_controller': bool(rng.random() < 0.3),
@@ -738,6 +748,12 @@ def run_case(ctx, chi, case, label='gen'):
              sample=summary(case))
     cfg = wire_config(case)
     rows = wire_rows(case)
+    if cfg[1] is None:
+        seen = list(dict.fromkeys(okey(r[2]) for r in case['rows'] if r[2] is not None))
+        ctx.branches.add('output map not passed: %s, %s' % (
+            'one output' if case['n_out'] == 1 else 'several outputs',
+            'one observable' if len(seen) == 1 else
+            ('several observables, %s first' % ('a mapped one' if seen[0] in mapped_keys else 'an unrelated one'))))
     shared = case['user_regimen']
     h = case.get('history')
     if h and h['posterior']:
@@ -869,6 +885,14 @@ def check_posterior(ctx, chi, case, c, post, mo, spec, which, sel, carried='user
     ctx.spec('C14.controller_names', list(top) == list(names_h[len(names_h) - len(top):]) and
              c.get_n_parameters() == len(top), inp, {'controller': top, 'hand': names_h})
     ctx.spec('C14.n_parameters', post.n_parameters() == hand.n_parameters(), inp)
+    # each output is fed with the measurements of ITS observable (explicit map / same name / the only one), i.e. as
+    # many as the declarative reading of the frame (Lean `C14.spec`) finds for that individual and observable
+    n_chi = [int(v) for v in post.get_log_likelihood().n_observations()]
+    n_spec = [len(p) for p in sp[0]['pairs']] if kind == 'single' else [sum(len(p) for p in s['pairs']) for s in sp]
+    ctx.spec('C14.n_observations_of_output', n_chi == n_spec, inp,
+             {'controller': n_chi, 'frame': n_spec, 'output_map_passed': user_maps(case)[0] is not None,
+              'observables_in_frame_order': list(dict.fromkeys(okey(r[2]) for r in case['rows'] if r[2] is not None)),
+              'selector': sel})
     if post.n_parameters() != hand.n_parameters():
         return
     for x in xs:
@@ -1035,9 +1059,11 @@ def transform(rng, case, kind):
             else:              # nothing but an ID
                 new = [rid, None, None, None, None, None]
             new.append([str(int(rng.integers(100))) for _ in range(nf)])
-            # anywhere after the first row of that ID (the order of first appearance is part of the data)
+            # anywhere after the first row of that ID (the order of first appearance is part of the data); for the
+            # individual that appears first: anywhere, also as the very first row of the frame
             first = next(k for k, r in enumerate(rows) if r[0] == rid)
-            rows.insert(int(rng.integers(first + 1, len(rows) + 1)), new)
+            lo = 0 if rid == ids_present[0] else first + 1
+            rows.insert(0 if (lo == 0 and rng.random() < 0.3) else int(rng.integers(lo, len(rows) + 1)), new)
     elif kind == 'foreign_columns':
         t['foreign'] = t['foreign'] + ['Extra %d' % k for k in range(int(rng.integers(1, 3)))]
         for r in rows:
@@ -1180,6 +1206,24 @@ def corpus(ctx, chi):
     # an individual whose only rows are doses: empty likelihood, own regimen, still an individual
     rows = [R(1, 1.0, 'conc', 1.0), R(2, 0.0, None, None, 1.0, 0.5), R(1, 0.5, None, None, 2.0, None)]
     run_case(ctx, chi, base_case(rows=rows, pop=[['pooled', 1, None], ['gaussian', 2, None]]), 'corpus')
+    # no output map passed: outputs are matched by name, unrelated observables (first in the frame) are ignored
+    rows = [R(1, 0.0, 'CRP', 11.0), R(1, 2.0, 'CRP', 14.5), R(1, 0.5, 'out0', 4.1), R(1, 1.0, 'out0', 3.2),
+            R(1, 2.0, 'out0', 2.0), R(2, 0.0, 'CRP', 7.2), R(2, 1.0, 'out0', 2.9), R(2, 3.0, 'out0', 1.1),
+            R(2, None, 'Age', 0.7), R(1, None, 'Age', 1.1)]
+    run_case(ctx, chi, base_case(rows=rows, map_mode='identity', obs_of={'out0': 'out0'}, pass_identity_none=True,
+                                 dosing='nocolumn'), 'corpus')
+    run_case(ctx, chi, base_case(rows=rows, map_mode='identity', obs_of={'out0': 'out0'}, pass_identity_none=True,
+                                 dosing='nocolumn', pop=[['lognormal', 1, ['Age']], ['pooled', 2, None]]), 'corpus')
+    rows2 = [R(3, 1.0, 'CRP', 5.0), R(3, 1.0, 'out1', 1.0), R(3, 0.5, 'out0', 2.0), R(4, 0.5, 'out1', 1.5),
+             R(4, 0.25, 'CRP', 6.0), R(4, 2.0, 'out0', 0.5), R(3, 0.0, 'dose event', None, 2.0, 0.5)]
+    run_case(ctx, chi, base_case(rows=rows2, n_out=2, kinds=['G', 'M'], outputs=['out0', 'out1'], map_mode='identity',
+                                 obs_of={'out0': 'out0', 'out1': 'out1'}, pass_identity_none=True,
+                                 layout='interleaved'), 'corpus')
+    # ... and the documented convenience: one output, ONE observable (any name, missing cells aside)
+    rows3 = [R(1, 0.5, 'Plasma conc', 4.1), R(1, 0.0, None, None, 1.0, None), R(2, 1.0, 'Plasma conc', 2.9),
+             R(1, 1.0, 'Plasma conc', 3.2)]
+    run_case(ctx, chi, base_case(rows=rows3, map_mode='auto', obs_of={'out0': 'Plasma conc'}, layout='interleaved'),
+             'corpus')
     # malformed frames: agreement on the rejection only
     bad = [
         base_case(rows=[R(1, 1.0, 'conc', 1.0), R(1, 0.0, None, None, 1.0, 0.5), R(1, 0.0, None, None, 2.0, 1.0)]),
